@@ -592,7 +592,9 @@ func (w *concWorld) Finish(s *simrt.Sched, res *RunResult) {
 		return
 	}
 	// (c) liveness of the run and of Close/Suspend
-	if !w.mainDone && s.End == simrt.EndDeadlock && w.inShutdown != "" && len(w.vx.Events()) == cap(w.vx.Events()) {
+	// (with a spinner ticking the run ends at the step limit instead of in a
+	// global deadlock: the picture is the same)
+	if !w.mainDone && s.End != simrt.EndFinished && w.inShutdown != "" && len(w.vx.Events()) == cap(w.vx.Events()) {
 		res.Violate("shutdown-blocks-on-full-queue", "vaxis."+w.inShutdown, "%s never returned: the event queue (capacity %d) is full, the input goroutine is blocked posting a terminal event into it, so the parser cannot hand over its last items and %s waits for the parser for ever - the only consumer of the queue is the caller of %s: %v\ncase: %s", w.inShutdown, w.qsize, w.inShutdown, w.inShutdown, s.Picture(), toJSON(w.Describe()))
 		return
 	}
